@@ -1265,3 +1265,18 @@ Qed.
 Theorem faults_do_not_touch_logic W H fails s ops :
   run_logics W H fails s ops = run_logics W H no_faults s ops.
 Proof. now apply logic_simulation. Qed.
+
+Theorem drop_finished_standalone W H fails s b now :
+  finished (get_bar s b) = true -> (forall idx, b_target (get_bar s b) <> TMulti idx) ->
+  step W H fails s now (ODrop b) = (upd_bar s b (fun x => set_b_alive x false), [], true).
+Proof.
+  intros Hf Hn. rewrite drop_finished_silent by exact Hf. now rewrite mark_zombie_standalone.
+Qed.
+
+Theorem drop_finished_member W H fails s b idx now :
+  finished (get_bar s b) = true -> b_target (get_bar s b) = TMulti idx ->
+  step W H fails s now (ODrop b)
+  = (upd_bar (set_s_mp s (ms_mark_zombie W (s_mp s) idx)) b (fun x => set_b_alive x false), [], true).
+Proof.
+  intros Hf Ht. rewrite drop_finished_silent by exact Hf. now rewrite (mark_zombie_member W s b idx Ht).
+Qed.
